@@ -254,6 +254,65 @@ fn drive<S: Sig + Copy, E: ShardEdge<S, 3> + mem_dbg::MemSize>(
                     })
                 })
             }
+            // Signatures on both sides of a point where the first vertex changes, found by
+            // binary search on the logic's own edge() (inputs only: the specification
+            // judges every item as it judges an `edge` event). `var` says which 64-bit
+            // quantity is varied: "r" = sig[0] rotated left by the shard bits, "w0" = sig[0],
+            // "w1" = sig[1]; `frac` (per mille) picks the point.
+            "boundary" => {
+                let base: Vec<u64> = op["sig"].as_array().unwrap().iter().map(|w| u128_of_bits(w) as u64).collect();
+                let var = op["var"].as_str().unwrap_or("r").to_string();
+                let frac = op["frac"].as_u64().unwrap_or(500) as u128;
+                guard(|| {
+                    let h = e.shard_high_bits();
+                    let make = |x: u64| -> Vec<u64> {
+                        let mut w = base.clone();
+                        match var.as_str() {
+                            "w1" if w.len() > 1 => w[1] = x,
+                            "w0" => w[0] = x,
+                            _ => w[0] = x.rotate_right(h),
+                        }
+                        w
+                    };
+                    let v0 = |x: u64| e.edge(mk(&make(x)))[0] as u128;
+                    let (a, z) = (v0(0), v0(u64::MAX));
+                    let t = if z > a { a + (z - a) * frac / 1000 } else { a };
+                    let (mut lo, mut hi) = (0u64, u64::MAX);
+                    while lo < hi {
+                        let mid = lo + (hi - lo) / 2;
+                        if v0(mid) >= t {
+                            hi = mid;
+                        } else {
+                            lo = mid + 1;
+                        }
+                    }
+                    let mask = if h == 0 { 0 } else { (1u64 << h) - 1 };
+                    let mut xs = vec![lo.wrapping_sub(2), lo.wrapping_sub(1), lo, lo.wrapping_add(1), lo & !mask, lo | mask,
+                                      lo.wrapping_sub(1) & !mask, lo.wrapping_sub(1) | mask];
+                    xs.dedup();
+                    let items: Vec<Value> = xs
+                        .into_iter()
+                        .map(|x| {
+                            let words = make(x);
+                            let sig = mk(&words);
+                            let bits = e.shard_high_bits();
+                            let edge = e.edge(sig);
+                            let ls = e.local_sig(sig);
+                            let le = e.local_edge(ls);
+                            json!({
+                                "op": "edge", "out": "ret",
+                                "sig": sig_bits(&words),
+                                "edge": [lim(edge[0]), lim(edge[1]), lim(edge[2])],
+                                "ledge": [lim(le[0]), lim(le[1]), lim(le[2])],
+                                "sh": lim(e.shard(sig)),
+                                "sk": lim(e.sort_key(sig)),
+                                "hb": limbs(sig.high_bits(bits, (1u64 << bits) - 1) as u128),
+                            })
+                        })
+                        .collect();
+                    json!({"items": items})
+                })
+            }
             _ => Err("na".into()),
         };
         match r {
